@@ -282,6 +282,15 @@ def emit_item(u, file, nm, derive, force_pub=False):
         else:
             u.edits.append("%s::%s: visibility `%s` dropped" % (file, nm, b[vis["start"]:vis["end"]].decode()))
         pos = vis["end"]
+    if it["kind"] in ("struct", "enum", "type", "const") and vis is None and force_pub:
+        last_attr_end = max([a["end"] for a in it["attrs"]] + [start])
+        base = max(pos, last_attr_end)
+        m = re.match(rb"\s*", b[base:end])
+        ins = base + m.end()
+        pieces.append(b[pos:ins])
+        pieces.append(b"pub ")
+        u.edits.append("%s::%s: private -> `pub`" % (file, nm))
+        pos = ins
     pieces.append(b[pos:end])
     txt = b"".join(pieces).decode()
     u.emit(txt, {"kind": "item", "item": nm, "src": (file, it["line_start"])})
